@@ -18,7 +18,34 @@ PREFIXES = [[], [["bfs", None, 0, None]], [["bfs", None, None, None]], [["block"
 ORDERS = ["sets_first", "seeds_first", "cands_first", "reclaim_between", "pickle_between"]
 
 
+def skip_overlap_cases(seed, tier):
+    """shape added after the seeded-change review: skip nodes whose motif-avoidant attractor lies in the overlap with a sibling node whose attractor data
+    is not computed yet (or was computed / reclaimed): root expanded only, skip_to_minimal on one or several children / skip_remaining, optionally seeds of
+    a sibling first or reclaim_node_data; networks: a motif-avoidant module with 1-3 bistable side modules (families.maa_overlap_nets) and the
+    hand-built motif-avoidant networks."""
+    nets = list(families.maa_overlap_nets(seed, tier))
+    extra = [(k, v) for k, v in families.maa_nets()]
+    nets = [x for k, n in enumerate(nets) for x in ([n] + ([extra[k // 4]] if k % 4 == 3 and k // 4 < len(extra) else []))]
+    prefixes = [[["succ", 0], ["skip", 1]], [["succ", 0], ["skip", 2]], [["succ", 0], ["skip", 3]], [["succ", 0], ["skip", 4]], [["bfs", None, 0, None], ["skip_remaining"]],
+                [["succ", 0], ["skip", 1], ["skip", 3]], [["succ", 0], ["skip", 2], ["skip", 1]], [["succ", 0], ["seeds", 1, False], ["skip", 2]],
+                [["succ", 0], ["seeds", 2, False], ["skip", 1], ["reclaim"]], [["succ", 0], ["cands", 3, True, True], ["skip", 1], ["skip", 2]],
+                [["succ", 0], ["succ", 1], ["skip", 2]], [["succ", 0], ["skip", 1], ["succ", 2]], [["succ", 0], ["succ", 2], ["skip_remaining"]],
+                [["bfs", None, 0, None], ["skip", -1]], [["bfs", None, 0, None], ["skip", -2], ["pickle"]], [["min", None, 4, True]]]
+    for k, (name, bnet) in enumerate(nets):
+        rng = random.Random(f"{seed}-{name}-c12-skip")
+        if k < 2:
+            picks = [(p, "seeds_first") for p in prefixes[:5]] + [(p, rng.choice(ORDERS)) for p in prefixes[5:]]
+        else:
+            picks = [(p, rng.choice(ORDERS)) for p in rng.sample(prefixes[:7], 2) + rng.sample(prefixes[7:], 1)]
+        for pre, order in picks:
+            yield {"net": name, "bnet": bnet, "prefix": pre, "order": order, "fallback_limit": 1 if k < 2 else rng.choice([0, 1])}
+
+
 def cases(seed, tier):
+    yield from families.interleave((skip_overlap_cases(seed, tier), 1), (general_cases(seed, tier), 5))
+
+
+def general_cases(seed, tier):
     for name, bnet in families.TRANSIENT_CANDIDATES.items():  # candidates requested with the reduction options off, then seeds and sets
         for node in range(4):
             for flags in ([False, False], [True, False]):
